@@ -5,6 +5,7 @@ import (
 	"database/sql"
 	"encoding/hex"
 	"fmt"
+	"os"
 	"sort"
 	"strings"
 
@@ -76,14 +77,35 @@ func renderVal(v interface{}) string {
 	}
 }
 
-// OpenRO opens a read-only plain connection to the database file (not through the wrapper).
+// OpenRO opens the lab's own plain connection to the database file (not through the wrapper).
+// It is only ever used for reads. mattn's driver issues "PRAGMA journal_mode = DELETE" on every
+// open unless told otherwise, which fails with "database is locked" on a WAL database that
+// another connection has open – so the journal mode is detected from the file header.
 func OpenRO(path string) (*sql.DB, error) {
-	db, err := sql.Open("sqlite3", "file:"+path+"?mode=ro&_busy_timeout=10000")
+	dsn := "file:" + path + "?_busy_timeout=10000"
+	if IsWAL(path) {
+		dsn += "&_journal=WAL"
+	}
+	db, err := sql.Open("sqlite3", dsn)
 	if err != nil {
 		return nil, err
 	}
 	db.SetMaxOpenConns(2)
 	return db, nil
+}
+
+// IsWAL reads the file-format version bytes of the SQLite header (2 = WAL).
+func IsWAL(path string) bool {
+	f, err := os.Open(path)
+	if err != nil {
+		return false
+	}
+	defer f.Close()
+	hdr := make([]byte, 20)
+	if n, _ := f.Read(hdr); n < 20 {
+		return false
+	}
+	return hdr[18] == 2 || hdr[19] == 2
 }
 
 // TakeDump reads the tables through db.
